@@ -115,6 +115,16 @@ C16)
   generic_standin "$REPO/copy" "$V/standins/copy_standin_test.go" TestGovcStandinCopy copy "set of paths written by the real Copy vs filtered fsutil.Walk of the same tree, into empty and populated destinations" "2 on-disk trees x include/exclude lists with <= 2 (quick) / <= 3 (thorough) patterns from a 23-pattern pool x {empty, populated destination}" "disagreements,preexisting_entries_lost"
   rc=$?
   ;;
+C20)
+  generic_standin "$REPO/types" "$V/standins/codec_standin_test.go" TestGovcStandinCodec codec "hand-optimised codec vs generic protobuf runtime, both directions, on enumerated Stat and Packet values (equal value, SizeVT == bytes produced)" "13824 stats (4 paths x 4 modes x 3 uids x 4 sizes x 3 mtimes x 3 link names x 2 device numbers x 4 xattr maps, incl. invalid UTF-8) and 240 packets (5 types x 4 stats x 3 ids x 4 payloads up to 40000 bytes)" "mismatches,size_errors"
+  rc=$?
+  python3 - "$S/codec.json" <<'PY'
+import json,sys
+r=json.load(open(sys.argv[1]))
+if r.get("known_class_invalid_utf8",0)>0:
+    print("KNOWN-FINDING: property=C20 standin.codec.invalid_utf8 %d of %d enumerated values carry a string field that is not valid UTF-8 (path, link name or xattr key): the hand-optimised codec round-trips them, the generic protobuf runtime rejects them in both directions"%(r["known_class_invalid_utf8"], r["evaluations"]))
+PY
+  ;;
 *)
   ;;
 esac
